@@ -49,9 +49,13 @@ def main():
     name = a.keep_as or os.path.basename(src)
     meta = json.load(open(os.path.join(src, "meta.json")))
     base = "/var/tmp/rw/confirm_%s" % name
-    clean, mut = base + "_clean", base + "_mut"
+    head = sh(["git", "-C", "/repo", "rev-parse", "--short", "HEAD"]).stdout.strip()
+    # the unchanged tree + its build are shared between confirmations of the same /repo HEAD
+    clean, mut = "/var/tmp/rw/confirm_clean_%s" % head, base + "_mut"
     rec = {"name": name}
     for t in (clean, mut):
+        if t == clean and os.path.exists(os.path.join(clean, "build", ".ok")):
+            continue
         sh(["git", "-C", "/repo", "worktree", "remove", "--force", t])
         r = sh(["git", "-C", "/repo", "worktree", "add", "--detach", t, "HEAD"])
         if r.returncode != 0:
@@ -63,7 +67,12 @@ def main():
         if r.returncode != 0:
             print("patch does not apply:", r.stderr)
             return
-        b1, l1 = build(clean, clean + "/build")
+        if os.path.exists(os.path.join(clean, "build", ".ok")):
+            b1, l1 = True, "cached"
+        else:
+            b1, l1 = build(clean, clean + "/build")
+            if b1:
+                open(os.path.join(clean, "build", ".ok"), "w").write("ok")
         b2, l2 = build(mut, mut + "/build")
         rec["compiles"] = b2
         if not (b1 and b2):
@@ -92,7 +101,7 @@ def main():
             return
         ok = True
     finally:
-        for t in (clean, mut):
+        for t in (mut,):
             sh(["git", "-C", "/repo", "worktree", "remove", "--force", t])
             shutil.rmtree(t, ignore_errors=True)
         rec["confirmed"] = ok
